@@ -51,6 +51,9 @@ func aggregateState(roles []Role) (s sm.State) {
 			if !callR.Critical {
 				continue
 			}
+		} else if len(c.GetRoles()) > 0 && !c.IsCritical() {
+			// a role with no critical task or call below it never receives a state update, so it has no opinion
+			continue
 		}
 		s = s.X(c.GetState())
 	}
